@@ -5,6 +5,7 @@
 #include <Fastor/Fastor.h>
 #include "views_common.h"
 #include <cstring>
+#include <complex>
 using namespace Fastor;
 #ifndef CFGNAME
 #define CFGNAME "sse2"
@@ -15,6 +16,18 @@ template<> struct tn<float> { static const char* n() { return "float"; } };
 template<> struct tn<double> { static const char* n() { return "double"; } };
 template<> struct tn<int32_t> { static const char* n() { return "int32"; } };
 template<> struct tn<int64_t> { static const char* n() { return "int64"; } };
+template<> struct tn<std::complex<double>> { static const char* n() { return "cdouble"; } };
+// element helpers: complex elements get a distinct imaginary part; reals ignore it
+template<typename T> struct el { static T mk(size_t a, size_t) { return (T)a; } static double d(const T& x) { return (double)x; } static constexpr bool cplx = false; };
+template<typename U> struct el<std::complex<U>> { static std::complex<U> mk(size_t a, size_t b) { return std::complex<U>((U)a, (U)b); }
+    static double d(const std::complex<U>& x) { return (double)x.real() + 1e-3 * (double)x.imag(); } static constexpr bool cplx = true; };
+// the expression consumer: 2*A(v) + B(v) for the real types, A(v) + B(v) for complex (no scalar*expression overload is needed)
+template<typename T, bool C = el<T>::cplx> struct combo {
+    template<typename X, typename Y> static auto make(const X& x, const Y& y) -> decltype((T)2 * x + y) { return (T)2 * x + y; }
+    static T want(const T& a, const T& b) { return (T)((T)2 * a + b); } };
+template<typename T> struct combo<T, true> {
+    template<typename X, typename Y> static auto make(const X& x, const Y& y) -> decltype(x + y) { return x + y; }
+    static T want(const T& a, const T& b) { return a + b; } };
 
 namespace vw {
 struct RFail { std::string what; };
@@ -59,13 +72,13 @@ static void rprobe(const View& v, const std::array<int,RK>& rd, const std::vecto
 
 template<typename RT, typename T> static void rcheck(const char* tag, const RT& r, const std::vector<T>& expect, const std::vector<T>* e2, RFail& fail) {
     for (size_t p = 0; p < expect.size(); ++p) {
-        T want = e2 ? (T)(expect[p] + (*e2)[p]) : expect[p];
-        VR_CHECK(r.data()[p] == want, "consumer %s result[%zu]=%g want %g", tag, p, (double)r.data()[p], (double)want);
+        T want = e2 ? combo<T>::want(expect[p], (*e2)[p]) : expect[p];
+        VR_CHECK(r.data()[p] == want, "consumer %s result[%zu]=%g want %g", tag, p, el<T>::d(r.data()[p]), el<T>::d(want));
     }
 }
 template<typename PT> static void rfill(PT& A, PT& B) {
     using T = typename PT::scalar_type;
-    for (size_t k = 0; k < (size_t)PT::size(); ++k) { A.data()[k] = (T)(k + 1); B.data()[k] = (T)(1000 + 3 * k); }
+    for (size_t k = 0; k < (size_t)PT::size(); ++k) { A.data()[k] = el<T>::mk(k + 1, 5000 + k); B.data()[k] = el<T>::mk(1000 + 3 * k, 7000 + 2 * k); }
 }
 template<typename P, typename... A> static auto rslice(P& p, A... a) -> decltype(p(a...)) { return p(a...); }
 
@@ -87,7 +100,7 @@ struct RDynRunner<T, CK, Kinds<K...>, Dims<D...>, Dims<R...>> {
             { auto v = rslice(a, ArgMaker<K>::make(e[I])...); rprobe<T, RK, RK == 2>(v, rd, expect, fail); }
             { RT r(rslice(a, ArgMaker<K>::make(e[I])...)); rcheck("ctor", r, expect, (const std::vector<T>*)nullptr, fail); }
             { RT r; r.zeros(); r += rslice(a, ArgMaker<K>::make(e[I])...); rcheck("+=", r, expect, (const std::vector<T>*)nullptr, fail); }
-            { RT r(rslice(a, ArgMaker<K>::make(e[I])...) + rslice(b, ArgMaker<K>::make(e[I])...)); rcheck("a+b", r, expect, &expect2, fail); }
+            { RT r(combo<T>::make(rslice(a, ArgMaker<K>::make(e[I])...), rslice(b, ArgMaker<K>::make(e[I])...))); rcheck("2a+b", r, expect, &expect2, fail); }
             { RT r; r = rslice(a, ArgMaker<K>::make(e[I])...); rcheck("=", r, expect, (const std::vector<T>*)nullptr, fail); }
         } catch (const std::exception& ex) { VR_CHECK(false, "exception %s", ex.what()); }
     }
@@ -132,7 +145,7 @@ struct RFixRunner<T, CK, Dims<D...>, Fseqs...> {
                 { auto v = a(Fseqs()...); rprobe<T, RK, RK == 2>(v, rd, expect, fail); }
                 { RT r(a(Fseqs()...)); rcheck("ctor", r, expect, (const std::vector<T>*)nullptr, fail); }
                 { RT r; r.zeros(); r += a(Fseqs()...); rcheck("+=", r, expect, (const std::vector<T>*)nullptr, fail); }
-                { RT r(a(Fseqs()...) + b(Fseqs()...)); rcheck("a+b", r, expect, &expect2, fail); }
+                { RT r(combo<T>::make(a(Fseqs()...), b(Fseqs()...))); rcheck("2a+b", r, expect, &expect2, fail); }
                 { RT r; r = a(Fseqs()...); rcheck("=", r, expect, (const std::vector<T>*)nullptr, fail); }
             } catch (const std::exception& ex) { VR_CHECK(false, "exception %s", ex.what()); }
         }
